@@ -29,8 +29,9 @@ try:
     lines = [l for l in chk.stdout.splitlines() if l.startswith(("VIOLATION", "KNOWN", "UNDECIDED", "CHECKER")) or " exit=" in l]
     out = f"/verif/seeded/{sid}"
     os.makedirs(out, exist_ok=True)
-    shutil.copy(diff, out + "/patch.diff")
-    shutil.copy(demo, out + "/" + os.path.basename(demo))
+    for src, dst in ((diff, out + "/patch.diff"), (demo, out + "/" + os.path.basename(demo))):
+        if os.path.abspath(src) != os.path.abspath(dst):
+            shutil.copy(src, dst)
     meta = {"id": sid, "property": prop, "confirmed": {"demo_exit_clean_tree": demo_clean, "demo_exit_with_patch": demo_mut, "test_suite_passes_with_patch": tests_ok,
             "test_tail": t.stdout.strip().splitlines()[-1:] },
             "check": {"cmd": f"VERIF_REPO=<scratch worktree with patch> ./check {prop} --tier {tier}", "exit": chk.returncode, "wall_s": round(time.time() - t0, 1),
